@@ -24,7 +24,7 @@ mutual
     | c :: rest => fullOpenItem c && fullOpenList rest
 end
 
-/-- the writer's `/Count` is Table 153's: the item is open, or nothing below it is closed -/
+/-- the unrepaired `/Count` is Table 153's: the item is open, or nothing below it is closed -/
 def countOk (it : Item) : Bool := it.isOpen || fullOpenList it.children
 
 theorem size_leaf (c : Item) (h : c.children.isEmpty = true) : c.size = 1 := by
@@ -77,12 +77,12 @@ mutual
       simp only [visibleList, sizeList, visible_eq_size_item c h.1, visible_eq_size_list rest h.2]
 end
 
-theorem countEntry_eq_of_ok (it : Item) (h : countOk it = true) :
-    it.countEntry = Spec.countEntry it := by
+theorem countEntryOld_eq_of_ok (it : Item) (h : countOk it = true) :
+    it.countEntryOld = Spec.countEntry it := by
   cases it with
   | mk o cs =>
     simp only [countOk, Item.isOpen, Item.children, Bool.or_eq_true] at h
-    simp only [Item.countEntry, Spec.countEntry, Spec.shownIfOpened, Item.children, Item.isOpen,
+    simp only [Item.countEntryOld, Spec.countEntry, Spec.shownIfOpened, Item.children, Item.isOpen,
       Item.visible, Item.size]
     by_cases he : cs.isEmpty = true
     · simp [he]
@@ -142,6 +142,100 @@ mutual
         · simp [hj]
       rw [hprev, hnext]
 end
+
+/-! ### the repaired writer = the reference traversal, on every forest -/
+
+/-- the repaired `/Count` rule is Table 153's for every item -/
+theorem countEntry_eq (it : Item) : it.countEntry = Spec.countEntry it := by
+  cases it with
+  | mk o cs =>
+    simp only [Item.countEntry, Spec.countEntry, Spec.shownIfOpened, Item.children, Item.isOpen,
+      Item.visible]
+    by_cases he : cs.isEmpty = true
+    · simp [he]
+    · cases o <;> simp [he]
+
+theorem siblingIds_length (pool : List Nat) (idx : Nat) (cs : List Item) :
+    (siblingIds pool idx cs).length = cs.length := by
+  induction cs generalizing idx with
+  | nil => rfl
+  | cons c rest ih => simp [siblingIds, ih]
+
+/-- `outline_sibling_ids(..)[j]` is the id of the place where sibling `j` really is -/
+theorem siblingIds_idAt (pool : List Nat) (idx : Nat) (cs : List Item) (j : Nat)
+    (hj : j < cs.length) : idAt (siblingIds pool idx cs) j = at' pool (idx + posTrue cs j) := by
+  induction cs generalizing idx j with
+  | nil => simp at hj
+  | cons c rest ih =>
+    cases j with
+    | zero => simp [siblingIds, idAt, posTrue, sizeList]
+    | succ j =>
+      have hj' : j < rest.length := by simpa using hj
+      have := ih (idx + c.size) j hj'
+      simp only [idAt, posTrue] at this ⊢
+      simp only [siblingIds, List.getD_cons_succ, List.take_succ_cons, sizeList, this]
+      congr 1
+      omega
+
+mutual
+  theorem emitItemN_eq (cnt : Item → Option Int) (pool : List Nat)
+      (itemId parent : Nat) (prev next : Option Nat) (idx : Nat) :
+      (it : Item) → emitItemN cnt pool itemId parent prev next idx it =
+          emitItem posTrue cnt pool itemId parent prev next idx it
+    | .mk o cs => by
+      simp only [emitItemN, emitItem]
+      rw [emitListN_eq cnt pool itemId idx cs.length cs rfl 0 idx cs (by omega)]
+      by_cases hn : cs.length = 0
+      · have : cs = [] := List.length_eq_zero_iff.mp hn
+        subst this
+        simp
+      · have hne : cs.isEmpty = false := by
+          cases cs with
+          | nil => simp at hn
+          | cons _ _ => rfl
+        have h0 := siblingIds_idAt pool idx cs 0 (by omega)
+        have hl := siblingIds_idAt pool idx cs (cs.length - 1) (by omega)
+        simp only [posTrue, List.take_zero, sizeList, Nat.add_zero] at h0
+        simp [hn, hne, siblingIds_length, h0, hl]
+  theorem emitListN_eq (cnt : Item → Option Int) (pool : List Nat)
+      (parent firstIdx n : Nat) (sibs : List Item) (hn : n = sibs.length) (j idx : Nat) :
+      (rest : List Item) → j + rest.length = n →
+        emitListN cnt pool parent (siblingIds pool firstIdx sibs) n j idx rest =
+          emitList posTrue cnt pool parent firstIdx n sibs j idx rest
+    | [], _ => rfl
+    | c :: rest, hjn => by
+      simp only [List.length_cons] at hjn
+      simp only [emitListN, emitList]
+      rw [emitItemN_eq cnt pool _ parent _ _ (idx + 1) c,
+        emitListN_eq cnt pool parent firstIdx n sibs hn (j + 1) _ rest (by omega)]
+      have hprev : (if j > 0 then some (idAt (siblingIds pool firstIdx sibs) (j - 1)) else none) =
+          (if j > 0 then some (at' pool (firstIdx + posTrue sibs (j - 1))) else none) := by
+        by_cases hj : j > 0
+        · simp [hj, siblingIds_idAt pool firstIdx sibs (j - 1) (by omega)]
+        · simp [hj]
+      have hnext : (if j < n - 1 then some (idAt (siblingIds pool firstIdx sibs) (j + 1)) else none) =
+          (if j < n - 1 then some (at' pool (firstIdx + posTrue sibs (j + 1))) else none) := by
+        by_cases hj : j < n - 1
+        · simp [hj, siblingIds_idAt pool firstIdx sibs (j + 1) (by omega)]
+        · simp [hj]
+      rw [hprev, hnext]
+end
+
+theorem writeTreeN_eq (cnt : Item → Option Int) (r : Nat) (pool : List Nat) (items : List Item) :
+    writeTreeN cnt r pool items = writeTree posTrue cnt r pool items := by
+  unfold writeTreeN writeTree
+  by_cases he : items.isEmpty = true
+  · simp [he]
+  · simp only [he]
+    have hlen : 0 < items.length := by
+      cases items with
+      | nil => simp at he
+      | cons _ _ => simp
+    have h0 := siblingIds_idAt pool 0 items 0 hlen
+    have hl := siblingIds_idAt pool 0 items (items.length - 1) (by omega)
+    simp only [posTrue, List.take_zero, sizeList, Nat.add_zero] at h0
+    rw [emitListN_eq cnt pool r 0 items.length items rfl 0 0 items (by omega)]
+    simp [siblingIds_length, h0, hl, posTrue]
 
 /-! ### own ids -/
 
